@@ -1,8 +1,8 @@
 """C19 - the reported response states exactly what was computed for each request.
 
-Every ordered pair (thorough: triple) of outcome kinds {served, served bidirectional, served multi-slot, aggregated pair,
-aggregated triple, NO_PATH_WITH_CONSTRAINT, NO_FEASIBLE_BAUDRATE_WITH_SPACING, NO_FEASIBLE_MODE, MODE_NOT_FEASIBLE
-(forward) / (reverse only), NO_SPECTRUM, NOT_ENOUGH_RESERVED_SPECTRUM} on an asymmetric line system, through the real
+Every ordered pair and triple (quick: also 1/40 of the quadruples, thorough: every quadruple) of outcome kinds {served, served bidirectional, served multi-slot, aggregated pair,
+aggregated triple, disjoint pair (one member on a detour), NO_PATH (unreachable site), NO_PATH_WITH_CONSTRAINT, NO_FEASIBLE_BAUDRATE_WITH_SPACING, NO_FEASIBLE_MODE, MODE_NOT_FEASIBLE
+(forward) / (reverse only), NO_SPECTRUM, NOT_ENOUGH_RESERVED_SPECTRUM} on an asymmetric 5-site network, through the real
 planning() -> ResultElement.json / results_to_json -> jsontocsv.  Oracle: independent response model built from the
 returned requests and propagated paths; the CSV is parsed back and compared column by column, and jsontocsv is also
 driven with the same responses whose lowest-SNR metric is moved around the margin-inclusive threshold.
@@ -19,7 +19,7 @@ from checks import reqgen as rg
 
 KINDS = ['served', 'served_bidir', 'served_slots', 'agg2', 'agg3', 'no_path_constraint', 'no_baudrate', 'no_feasible_mode',
          'mode_not_feasible', 'mode_not_feasible_rev', 'no_spectrum', 'not_enough_reserved', 'served_bidir2', 'twin_tx_lo',
-         'twin_tx_hi', 'served_n0']
+         'twin_tx_hi', 'served_n0', 'no_path', 'disjoint_pair']
 MARGIN = 2
 
 
@@ -58,8 +58,13 @@ def library(thresholds=None, osnr_shift=0.0):
 
 
 def topology():
-    return c.build_topology(['A', 'B', 'C'], [('A', 'B', [c.fiber(80)], [c.fiber(120)]),
-                                              ('B', 'C', [c.fiber(60)], [c.fiber(110), c.edfa(), c.fiber(100)])])
+    # line A-B-C (asymmetric directions); a long detour A-D-C that no shortest route uses (only the second request of a
+    # disjoint pair); site E can reach A but cannot be reached (one-way link)
+    return c.build_topology(['A', 'B', 'C', 'D', 'E'], [('A', 'B', [c.fiber(80)], [c.fiber(120)]),
+                                                        ('B', 'C', [c.fiber(60)], [c.fiber(110), c.edfa(), c.fiber(100)]),
+                                                        ('A', 'D', [c.fiber(170)], [c.fiber(170)]),
+                                                        ('D', 'C', [c.fiber(170)], [c.fiber(170)]),
+                                                        ('E', 'A', [c.fiber(50)], None)])
 
 
 _TH = {}
@@ -117,6 +122,13 @@ def requests_for(kind, tag):
         return [R(f'{tag}r', 'trx A', 'trx C', trx_type='T', mode='fwd_only', bidir=True)]
     if kind == 'no_spectrum':
         return [R(f'{tag}x', 'trx B', 'trx A', trx_type='T', mode='ok', bandwidth=100e9, n=482, m=4)]
+    if kind == 'no_path':
+        return [R(f'{tag}u', 'trx A', 'trx E', trx_type='T', mode='ok')]
+    if kind == 'disjoint_pair':
+        # two requests between the same sites that must not share a link: one takes the detour over D (other modes, so
+        # that nothing else of the menu is identical to them)
+        return [R(f'{tag}d1', 'trx A', 'trx C', trx_type='T', mode='ok2', bandwidth=100e9),
+                R(f'{tag}d2', 'trx A', 'trx C', trx_type='T', mode='ok', bandwidth=200e9)]
     if kind == 'not_enough_reserved':
         # no mode given: the selected mode (150 Gbit/s) needs 3 channels for 400 Gbit/s, the reserved M=4 carries one
         return [R(f'{tag}e', 'trx A', 'trx C', trx_type='T', mode=None, bandwidth=400e9, n=-100, m=4)]
@@ -126,7 +138,7 @@ def requests_for(kind, tag):
 EXPECTED_REASON = {'no_path_constraint': 'NO_PATH_WITH_CONSTRAINT', 'no_baudrate': 'NO_FEASIBLE_BAUDRATE_WITH_SPACING',
                    'no_feasible_mode': 'NO_FEASIBLE_MODE', 'mode_not_feasible': 'MODE_NOT_FEASIBLE',
                    'mode_not_feasible_rev': 'MODE_NOT_FEASIBLE', 'no_spectrum': 'NO_SPECTRUM',
-                   'not_enough_reserved': 'NOT_ENOUGH_RESERVED_SPECTRUM'}
+                   'not_enough_reserved': 'NOT_ENOUGH_RESERVED_SPECTRUM', 'no_path': 'NO_PATH'}
 NOPATH = {'NO_PATH', 'NO_PATH_WITH_CONSTRAINT', 'NO_FEASIBLE_BAUDRATE_WITH_SPACING', 'NO_COMPUTED_SNR'}
 
 
@@ -177,11 +189,16 @@ def run_case(case):
     net, equipment, _, _ = c.design(topology(), eq)
     reqs = []
     groups = []         # (kind, [ids])
+    sync = []
     for k, kind in enumerate(case['kinds']):
         rs = requests_for(kind, f'k{k}')
         reqs += rs
-        groups.append((kind, [r['request-id'] for r in rs], rs))
-    doc = rg.service(reqs)
+        if kind == 'disjoint_pair':
+            sync.append([r['request-id'] for r in rs])
+            groups += [(kind, [r['request-id']], [r]) for r in rs]
+        else:
+            groups.append((kind, [r['request-id'] for r in rs], rs))
+    doc = rg.service(reqs, groups=sync or None)
     try:
         oms_list, ppaths, rpaths, rqs, dsjn, result = planning(net, equipment, doc)
         resp = results_to_json(result)
@@ -274,6 +291,8 @@ def run_case(case):
                     (g is not None and abs(g - val) <= 1e-9 * max(1.0, abs(val)))
                 if not same:
                     v(f'metric-differs:{name}:{k2}', f'{where}: {name} {k2} = {g!r}, receiver of that direction says {val!r}')
+        if kind == 'disjoint_pair' and any(e.uid == 'roadm D' for e in pp):
+            tags['disjoint-pair-detour'] = 1
         if rq.bidir:
             tags['bidir'] = 1
             if 'z-a-path-metric' in props:
@@ -383,16 +402,17 @@ def run_case(case):
 def main(rep, tier, seed):
     cases = [{'kinds': [k]} for k in KINDS]
     cases += [{'kinds': list(p)} for p in itertools.permutations(KINDS, 2)]
+    cases += [{'kinds': list(p)} for p in itertools.permutations(KINDS, 3)]
     if tier == 'thorough':
-        cases += [{'kinds': list(p)} for p in itertools.permutations(KINDS, 3)]
+        cases += [{'kinds': list(p)} for p in itertools.permutations(KINDS, 4)]
     else:
-        trip = list(itertools.permutations(KINDS, 3))
-        cases += [{'kinds': list(p)} for i, p in enumerate(trip) if i % 12 == seed % 12]
+        quad = itertools.permutations(KINDS, 4)
+        cases += [{'kinds': list(p)} for i, p in enumerate(quad) if i % 80 == seed % 80]
     results, stats = engine.run_pool('checks.c19', cases, horizon=600, chunksize=4)
     rep.absorb(results)
     rep.cov['bound'] = (f'every single outcome and every ordered pair of {len(KINDS)} outcome kinds, '
-                        f'{"every ordered triple" if tier == "thorough" else "1/12 of the ordered triples"}, on an asymmetric '
-                        '3-site line system with system margin 2 dB and penalty tables; per served response 5 lowest-SNR values '
+                        f'every ordered triple, {"every ordered quadruple" if tier == "thorough" else "1/80 of the ordered quadruples"}, on an asymmetric '
+                        '5-site network (line + detour + one-way spur) with system margin 2 dB and penalty tables; per served response 5 lowest-SNR values '
                         'around the margin-inclusive threshold through jsontocsv')
     rep.cov['space_size'] = len(cases)
     rep.cov['exhaustive'] = not stats['budget_hit'] and len(results) == len(cases)
@@ -404,5 +424,6 @@ def main(rep, tier, seed):
     rep.assumptions += ['the menu entries are checked to produce the outcome they were built for (else reported as '
                         'menu-outcome-differs)']
     need = {'outcome:None', 'outcome:NO_PATH_WITH_CONSTRAINT', 'outcome:NO_FEASIBLE_BAUDRATE_WITH_SPACING',
-            'outcome:NO_FEASIBLE_MODE', 'outcome:MODE_NOT_FEASIBLE', 'outcome:NO_SPECTRUM', 'outcome:NOT_ENOUGH_RESERVED_SPECTRUM'}
+            'outcome:NO_FEASIBLE_MODE', 'outcome:MODE_NOT_FEASIBLE', 'outcome:NO_SPECTRUM', 'outcome:NOT_ENOUGH_RESERVED_SPECTRUM',
+            'outcome:NO_PATH', 'disjoint-pair-detour'}
     rep.require(need <= set(rep.tags), f'outcome kinds not all produced: missing {sorted(need - set(rep.tags))}')
